@@ -49,6 +49,7 @@ func runC15(e *env) {
 	wg.Wait()
 	var cases []string
 	var inputs []interface{}
+	e.detailFn = "details"
 	for i, r := range results {
 		spec := specs[i]
 		if r == nil {
@@ -66,6 +67,7 @@ func runC15(e *env) {
 			e.m.fail(oracleFailure{What: "the test binary failed: " + r.RunErr, Input: spec})
 		}
 		returned := map[string]bool{}
+		var vals []string
 		variation := map[string]int{}
 		order := []string{}
 		for _, rec := range r.Records {
@@ -84,6 +86,16 @@ func runC15(e *env) {
 					returned[rec.Type] = false
 					e.m.count("calls_not_terminating")
 					continue
+				}
+				if len(rec.Val) > 0 {
+					if v, err := coqValue(rec.Val); err == nil {
+						var calls []string
+						for _, c := range rec.Calls {
+							calls = append(calls, fmt.Sprintf("rc %s (%d) (%d)", coqStr(c.Fn), c.Arg, c.Res))
+						}
+						vals = append(vals, fmt.Sprintf("(%s, %s, %s)", coqNamedRef(obs[i].RootPkg, rec.Type), coqList(calls), v))
+						e.m.count("calls_replayed_through_the_generator_model")
+					}
 				}
 				if !rec.OK {
 					e.m.fail(oracleFailure{What: "rand" + rec.Type + "(): " + rec.Msg, Input: map[string]interface{}{"module": spec, "type": rec.Type, "value": rec.JSON}, Class: classifyRand(rec)})
@@ -108,15 +120,15 @@ func runC15(e *env) {
 				e.m.fail(oracleFailure{What: fmt.Sprintf("rand%s() returned the same value %d times although the type admits several", t, samples), Input: spec})
 			}
 		}
-		cases = append(cases, fmt.Sprintf("{| c15_ana := %s;\n c15_runs := %s |}", obs[i].Ana, coqList(runs)))
+		cases = append(cases, fmt.Sprintf("{| c15_prog := %s;\n c15_enums := %s;\n c15_ana := %s;\n c15_runs := %s;\n c15_vals := %s |}", obs[i].Facts, obs[i].Enums, obs[i].Ana, coqList(runs), coqListNL(vals)))
 		inputs = append(inputs, map[string]interface{}{"module": spec, "returned": returned, "class": cls})
 		if len(cases) == 4 {
-			e.writeCases2(fmt.Sprintf("cases_C15_%d", len(e.m.CaseFiles)), anaHeader+"From GM Require Import Model.RandData Corr.Check_C15.\n", "mismatches", "prop_failures", cases, inputs)
+			e.writeCases2(fmt.Sprintf("cases_C15_%d", len(e.m.CaseFiles)), anaHeader+"From GM Require Import Model.RandData Sem.GoJson Sem.GoVal Sem.RandSem Corr.Check_C15.\nLocal Open Scope Z_scope.\nNotation rc := Build_rcall.\n", "mismatches", "prop_failures", cases, inputs)
 			cases, inputs = nil, nil
 		}
 	}
 	if len(cases) > 0 {
-		e.writeCases2(fmt.Sprintf("cases_C15_%d", len(e.m.CaseFiles)), anaHeader+"From GM Require Import Model.RandData Corr.Check_C15.\n", "mismatches", "prop_failures", cases, inputs)
+		e.writeCases2(fmt.Sprintf("cases_C15_%d", len(e.m.CaseFiles)), anaHeader+"From GM Require Import Model.RandData Sem.GoJson Sem.GoVal Sem.RandSem Corr.Check_C15.\nLocal Open Scope Z_scope.\nNotation rc := Build_rcall.\n", "mismatches", "prop_failures", cases, inputs)
 	}
 }
 
